@@ -9,6 +9,9 @@ ops:  build <blockSize> <bloom 0|1> <bitsPerKey> <u:ver:val,...>   (entries in b
       seek asc|desc <u> <ver> <n> Seek + up to n Next
       scan asc|desc               Rewind + Next…
       reopen                      close the file handle, drop caches, open the file again
+      corrupt <blk> <byte> <bit>  close, flip one bit of the table file inside data block blk, reopen;
+                                  from then on every load of that block is an error (spec: a read
+                                  answers an error/none or original data, never anything else)
 -/
 import Driver.Lib
 import NoKVModel.Sst.Model
@@ -20,6 +23,7 @@ structure St where
   t : Table := { blocks := [], bloomOn := false, nBits := 64, k := 1, filter := [] }
   ents : List SEntry := []
   built : Bool := false
+  bad : Option Nat := none   -- index of the block whose bytes were corrupted in the file
 
 def setCfg (st : St) (kv : String) : Option St :=
   match kv.splitOn "=" with
@@ -31,6 +35,7 @@ def setCfg (st : St) (kv : String) : Option St :=
     | "sst.blkFwdOp" => do let o ← CmpOp.ofString? v; pure { st with c := { st.c with blkFwdOp := o } }
     | "sst.blkRevOp" => do let o ← CmpOp.ofString? v; pure { st with c := { st.c with blkRevOp := o } }
     | "sst.searchVsOp" => do let o ← CmpOp.ofString? v; pure { st with c := { st.c with searchVsOp := o } }
+    | "sst.verifyBeforeCache" => do let b ← boolOfString? v; pure { st with c := { st.c with verifyBeforeCache := b } }
     | "sst.bloomSameProjection" => do let b ← boolOfString? v; pure { st with c := { st.c with bloomSameProjection := b } }
     | _ => none
   | _ => none
@@ -56,6 +61,33 @@ def parseEnt? (s : String) : Option SEntry :=
     pure (mkKey IdxCfg.good u v, x)
   | _ => none
 
+/-- index of the block the table iterator starts in: (first block whose base key satisfies
+`tblSeekOp`) - 1; `none` = there is no block before the target (idx == 0) -/
+def startBlock (c : SstCfg) (key : Bytes) (blocks : List Block) : Option Nat :=
+  let idx := (blocks.takeWhile (fun b => !(c.tblSeekOp.eval (klt (baseKey b) key) (keq (baseKey b) key)))).length
+  if idx = 0 then none else some (idx - 1)
+
+/-- reads when block `bad` fails its checksum: every load of it is an error, which ends the
+iteration (`it.err`), every other block is served as built -/
+def seekFwdBad (c : SstCfg) (key : Bytes) (blocks : List Block) (bad : Nat) : List SEntry :=
+  let j := (startBlock c key blocks).getD 0
+  if j < bad then seekFwd c key (blocks.take bad)
+  else if j = bad then []
+  else seekFwd c key blocks
+
+def seekRevBad (c : SstCfg) (key : Bytes) (blocks : List Block) (bad : Nat) : List SEntry :=
+  match startBlock c key blocks with
+  | none => []
+  | some j =>
+    if j < bad then seekRev c key blocks
+    else if j = bad then []
+    else seekRev c key (blocks.drop (bad + 1))
+
+/-- all prefixes of a result, as spec alternatives ("an error may cut the iteration short, but
+whatever is returned is original data") -/
+def prefixAlts (l : List SEntry) : String :=
+  "|".intercalate ((List.range (l.length + 1)).map (fun n => entsStr (l.take n)))
+
 def step (st : St) (toks : List String) : St × String :=
   if !st.built && toks.head? != some "cfg" && toks.head? != some "build" then (st, "no-table\tno-table") else
   match toks with
@@ -68,35 +100,50 @@ def step (st : St) (toks : List String) : St × String :=
     | some bs, some bloom, some bpk, some es =>
       let k := min (max (bpk * 69 / 100) 1) 30
       let t := buildTable st.c modelHash bs (bloom == 1) bpk k es
-      ({ st with t := t, ents := es, built := true }, s!"ok:{es.length}\tok:{es.length}")
+      ({ st with t := t, ents := es, built := true, bad := none }, s!"ok:{es.length}\tok:{es.length}")
     | _, _, _, _ => (st, "bad-op")
   | ["blocks"] =>
     (st, ",".intercalate (st.t.blocks.map (fun b => keyStr (baseKey b))) ++ "\t*")
   | ["reopen"] => (st, "ok\tok")
+  | ["corrupt", b, _, _] =>
+    match natOf? b with
+    | some b => ({ st with bad := some (b % (max st.t.blocks.length 1)) }, "ok\tok")
+    | none => (st, "bad-op")
   | ["get", u, v] =>
     match bytesOf? u, natOf? v with
     | some u, some v =>
       let k := mkKey IdxCfg.good u v
-      let m := optStr (search st.c modelHash st.t k)
+      let m := match st.bad with
+        | none => optStr (search st.c modelHash st.t k)
+        | some bad =>
+          match seekFwdBad st.c k st.t.blocks bad with
+          | [] => "none"
+          | e :: _ => if sameKey k e.1 && st.c.searchVsOp.nat 0 (verOf e.1) then valStr e.2 else "none"
       -- spec: first entry at or after the key; answered when it has the same user key
       let r := match st.ents.dropWhile (fun e => klt e.1 k) with
         | [] => none
         | e :: _ => if sameKey k e.1 then some e.2 else none
-      (st, m ++ "\t" ++ optStr r)
+      (st, m ++ "\t" ++ (if st.bad.isSome then "none|" ++ optStr r else optStr r))
     | _, _ => (st, "bad-op")
   | ["seek", dir, u, v, n] =>
     match bytesOf? u, natOf? v, natOf? n with
     | some u, some v, some n =>
       let k := mkKey IdxCfg.good u v
       let asc := dir == "asc"
-      let m := if asc then seekFwd st.c k st.t.blocks else seekRev st.c k st.t.blocks
+      let m := match st.bad with
+        | none => if asc then seekFwd st.c k st.t.blocks else seekRev st.c k st.t.blocks
+        | some bad => if asc then seekFwdBad st.c k st.t.blocks bad else seekRevBad st.c k st.t.blocks bad
       let r := if asc then st.ents.dropWhile (fun e => klt e.1 k)
                else (st.ents.takeWhile (fun e => !klt k e.1)).reverse
-      (st, entsStr (m.take n) ++ "\t" ++ entsStr (r.take n))
+      (st, entsStr (m.take n) ++ "\t" ++ (if st.bad.isSome then prefixAlts (r.take n) else entsStr (r.take n)))
     | _, _, _ => (st, "bad-op")
   | ["scan", dir] =>
     let asc := dir == "asc"
-    (st, entsStr (scan st.t asc) ++ "\t" ++ entsStr (if asc then st.ents else st.ents.reverse))
+    match st.bad with
+    | none => (st, entsStr (scan st.t asc) ++ "\t" ++ entsStr (if asc then st.ents else st.ents.reverse))
+    | some bad =>
+      let m := if asc then (st.t.blocks.take bad).flatten else ((st.t.blocks.drop (bad + 1)).flatten).reverse
+      (st, entsStr m ++ "\t" ++ prefixAlts (if asc then st.ents else st.ents.reverse))
   | _ => (st, "bad-op")
 
 def main : IO Unit := Driver.loop ({} : St) step
